@@ -492,8 +492,13 @@ def _install():
     os.listdir = _listdir
     os.scandir = _scandir
     time.sleep = _sleep
-    _saved_rm = shutil._use_fd_functions
+    _saved_rm = (shutil._use_fd_functions,
+                 getattr(shutil, "_USE_CP_SENDFILE", False))
     shutil._use_fd_functions = False
+    # a file copy (shutil.copyfile, or shutil.move across devices) goes
+    # through the traced file objects in blocks, not through sendfile on the
+    # raw descriptors: copying is not atomic and must not look as if it were
+    shutil._USE_CP_SENDFILE = False
 
 
 def _uninstall():
@@ -504,7 +509,7 @@ def _uninstall():
         setattr(os, k, _orig[k])
     os.open = _orig["os_open"]
     time.sleep = _orig["sleep"]
-    shutil._use_fd_functions = _saved_rm
+    shutil._use_fd_functions, shutil._USE_CP_SENDFILE = _saved_rm
 
 
 # --------------------------------------------------------------------------- #
@@ -530,6 +535,10 @@ def norm_rel(rel, tag=""):
     """relative path with a non-official file name inside a crop directory
     replaced by '<official stem>~tmp<tag>'; every other path unchanged"""
     parts = rel.split(os.sep)
+    if parts[0] == os.pardir:
+        # the other end of a rename or copy that starts outside the traced
+        # tree (a temporary made in $TMPDIR, say): its name varies per run
+        return "<outside>~tmp" + tag
     if not any(p.startswith(".xyz-") for p in parts[:-1]):
         return rel
     base = parts[-1]
